@@ -182,4 +182,28 @@ theorem ndcgT_eq (k : Option Nat) (hk : ∀ kk, k = some kk → 1 ≤ kk) (disc 
     · simp only [Bool.false_eq_true, if_false, Bool.not_false, if_true, maskAssign_zeros, h0, ne_eq, not_false_eq_true, true_and] <;> rfl
     · simp only [if_true, Bool.not_true, Bool.false_eq_true, if_false, hs, seriesNLargest_values, h0, ne_eq, not_false_eq_true] <;> rfl
 
+/-! ### MeanPopRank -/
+
+theorem foldl_add_eq_sumQs (xs : List Q) (a : Q) : xs.foldl (· + ·) a = a + sumQs xs := by
+  induction xs generalizing a with
+  | nil => simp [sumQs]
+  | cons x xs ih => simp only [List.foldl_cons, ih, sumQs, List.foldr_cons]; ring
+
+/-- **C06 (MeanPopRank):** the mean popularity rank of the truncated list, unknown items counting 0 — the model's `meanPopRank`
+    with the rank table read as a look-up with default 0 -/
+theorem meanPopRankT_eq (k : Option Nat) (R : List (Nat × Q)) (L : List Nat) (T : List (Nat × Q)) :
+    meanPopRankT k R L T = meanPopRank k (fun i => (gainOf R i).getD 0) L := by
+  unfold meanPopRankT meanPopRank
+  by_cases h : (truncate k L).length = 0
+  · have : (truncate k L).isEmpty = true := by
+      cases hl : truncate k L with
+      | nil => rfl
+      | cons a l => rw [hl] at h; simp at h
+    simp [h, this]
+  · have : (truncate k L).isEmpty = false := by
+      cases hl : truncate k L with
+      | nil => rw [hl] at h; simp at h
+      | cons a l => rfl
+    simp only [h, if_false, this, Bool.false_eq_true, meanQ, reindex0, List.length_map, foldl_add_eq_sumQs, zero_add]
+
 end LK.RankOps
